@@ -381,15 +381,15 @@ REGISTRY["C07"] = {
     "pkg": "props/c07",
     "level": "fault_enumeration",
     "level_text": ("Cancellation points indexed by the number of traces the (unbuffered) recording subscriber has received when it calls cancel() - an exact position "
-                   "in the tracer's total order - for a corpus of 14 programs covering tasks awaiting an answer, a half-full parallel join, exclusive probes, "
+                   "in the tracer's total order - for a corpus of 16 programs covering tasks awaiting an answer, a half-full parallel join, exclusive probes, "
                    "inclusive fork/join, loops, running / nested / not-yet-reached sub-processes, nodes on untaken branches, conditional flows leaving a task, "
-                   "listening catch events, an armed event-based gateway, boundary listeners, parallel catch events; each program is walked through its life by a "
+                   "listening catch events, an armed event-based gateway, boundary listeners, parallel catch events, timer catch events (duration, cycle, never firing; mock clock); each program is walked through its life by a "
                    "script of answers and events. Thorough: EVERY position k=0..T+1 of every corpus program, plus rapid-drawn (program,k,perturbation) and "
                    "generated programs; quick: rapid-drawn points only. Oracle after cancel while the subscriber keeps draining: the instance's goroutines come "
                    "to rest (else: spinning), WaitUntilComplete returned, Tracer().Done() closed, every StartAll/Do/ConsumeEvent call returned, NO goroutine "
                    "started by the instance is still alive (set difference against the goroutine ids alive before the case), every task request carries a "
                    "cancelled context."),
-    "level_note": "Trusted: goroutine attribution by baseline id set and the all-parked fixpoint (runtime.Stack(all) is an atomic snapshot). Positions are exact in the trace order but the engine state at a position varies with scheduling; timer-armed programs and process sets are not in the corpus.",
+    "level_note": "Trusted: goroutine attribution by baseline id set and the all-parked fixpoint (runtime.Stack(all) is an atomic snapshot). Positions are exact in the trace order but the engine state at a position varies with scheduling; process sets are not in the corpus.",
     "technique": "fault-point enumeration (cancel at every trace position) + rapid-drawn points, leak/stuck oracle by goroutine snapshot",
     "rule": ("Distinct = (program, cancel position k, perturbation seed). Non-trivial = 0 < k < T (strictly inside the run) with at least one node goroutine started."),
     "tests": [
@@ -409,12 +409,21 @@ REGISTRY["C17"] = {
                    "0..3 sit in WaitUntilComplete and 0..3 deliver non-matching events; schedule perturbation at all hook sites, GOMAXPROCS 4/16. Oracle: any "
                    "race report with a frame in a non-test file of the repository is a violation (reports wholly inside the harness fail the run as inconclusive); "
                    "any panic / worker crash is a violation; at every quiescent point the pending set, and at the end completion and the flows taken, equal the "
-                   "sequential token game's."),
-    "level_note": "Trusted: the Go race detector (reports only races that occur on executed schedules; none through unsafe). Event-based gateways and boundary events are exercised concurrently by C06/C10 without -race.",
+                   "sequential token game's. In addition the C06 (event-based gateway, competing events delivered concurrently), C10 (boundary events racing the answer) and "
+                   "C11 (catch events, concurrent and back-to-back deliveries) campaigns run under the race detector with the same race / crash / outcome oracles."),
+    "level_note": "Trusted: the Go race detector (reports only races that occur on executed schedules; none through unsafe).",
     "technique": "rapid property test under the race detector: concurrent API use against a sequential-semantics oracle; crash detection via journal",
-    "rule": ("Distinct = descriptor. Non-trivial = >=3 API calls overlapped in time (measured by an active-call counter) and >=2 tasks were pending at once (live tokens)."),
+    "rule": ("Distinct = descriptor. Non-trivial = >=3 API calls overlapped in time (measured by an active-call counter) and >=2 tasks were pending at once (live tokens); "
+             "for the C06/C10/C11 campaigns run under -race the non-trivial rule of that property applies (competing events / event racing the answer / delivery with and without effect)."),
     "tests": [
         {"name": "TestC17Concurrent", "checks": {"quick": 60, "thorough": 2500}, "shards": {"quick": 12, "thorough": 16}, "gomaxprocs": [4, 16, 8, 2],
          "limit": {"quick": 900, "thorough": 5400}},
+        # the C06 / C10 / C11 campaigns (concurrent bursts of events and answers, perturbation) under the race detector
+        {"name": "TestC06EventGateway", "pkg": "props/c06", "label": "race-C06", "checks": {"quick": 50, "thorough": 1500},
+         "shards": {"quick": 4, "thorough": 8}, "gomaxprocs": [4, 16, 8, 2], "limit": {"quick": 900, "thorough": 5400}},
+        {"name": "TestC10Boundary", "pkg": "props/c10", "label": "race-C10", "checks": {"quick": 50, "thorough": 1500},
+         "shards": {"quick": 4, "thorough": 8}, "gomaxprocs": [4, 16, 8, 2], "limit": {"quick": 900, "thorough": 5400}},
+        {"name": "TestC11Delivery", "pkg": "props/c11", "label": "race-C11", "checks": {"quick": 50, "thorough": 1500},
+         "shards": {"quick": 4, "thorough": 8}, "gomaxprocs": [4, 16, 8, 2], "limit": {"quick": 900, "thorough": 5400}},
     ],
 }
